@@ -9,6 +9,8 @@ PLAN = {
         "variant-type:underconstrained": 0.1, "variant-type:overconstrained": 0.02, "variant-type:unsuitably_constrained": 0.01, "variant-type:invalid": 0.08,
         "multi-component": 0.4, "nla-with-guesses": 0.05, "nla-single-unknown": 0.02, "reads-nla-unknown": 0.03, "initial-value-on-another-instance": 0.03,
         "names:class-members-differ": 0.2, "names:collision-across-components": 0.15, "names:primary-name-reused-in-computing-component": 0.04, "primary-variable-changed": 0.03,
+        "shape:rate-reader": 0.02, "shape:downstream-nla": 0.04, "shape:sparse-nla-system": 0.04, "shape:mixed-guess-nla-system": 0.04, "shape:self-reference": 0.04,
+        "comments-in-math": 0.1, "transform:comments-in-math": 0.2, "variant:coupled-rates": 0.01,
         "transform:permute-components": 0.2, "transform:permute-variables": 0.2, "transform:permute-equations": 0.2, "transform:reverse-connections": 0.2, "transform:swap-sides": 0.2,
         "transform:rename-components": 0.2, "transform:rename-units": 0.2, "transform:rename-variables/2": 0.05, "transform:rename-variables/3": 0.05, "transform:rename-variables/4": 0.05,
     },
